@@ -15,7 +15,7 @@
  *   flags: 1 authorizer  2 break-scriptfilename-for-php  4 fix-root-scriptname  8 check-local
  *          16 https  32 error-handler status saved  64 HTTP/2  128 h2 extended CONNECT
  *          256 upgrade allowed  512 request body spooled to temp files
- *          1024 server.stream-request-body=1  2048 proxy force-http10
+ *          1024 server.stream-request-body=1  2048 proxy force-http10  4096 server.stream-request-body=2
  *   body:  -  |  h<hex>  |  r<len>.<seed>  (pseudo-random block of 65521 bytes, repeated)
  *   sched: comma list; a number n = the next n body bytes arrive (the first entry is what is
  *          queued when create_env runs), then gw_write_refill_wb() runs with the write queue
@@ -31,12 +31,15 @@
  *   temp files with flag 512); cgi_write_request() writes it to the script's stdin pipe (or, not
  *   streaming and the body in one temp file, the temp file itself becomes stdin, as in
  *   cgi_create_env()); the harness reads the other end.   result: cgibody eof=<0|1> pend=<n> out=<hex>
- * op "h2data <content-length|-1> <body> <frames> <segmentation>": HTTP/2 request body.  One open
- *   stream; the body is carried by DATA frames "len.pad.end" (pad -1 = not padded, end 1 =
- *   END_STREAM); the frame byte stream is cut into read chunks of the given sizes (cycled), and
- *   h2_parse_frames() -> h2_recv_data() runs after each chunk, as after each network read.
- *   result: h2data state=<open|hcr|closed> len=<reqbody_length> rst=<RST_STREAM sent> goaway=<n>
- *           rq=<unconsumed bytes> out=<hex of r->reqbody_queue>
+ * op "h2data <content-length|-1> <max-request-size kB> <consumer 0|1> <body> <frames> <segmentation>":
+ *   HTTP/2 request body.  One open stream; the body is carried by DATA frames "len.pad.end[.x]" (pad -1 =
+ *   not padded, end 1 = END_STREAM, x = Pad Length octet present but no padding octets follow); the frame
+ *   byte stream is cut into read chunks of the given sizes (cycled), and h2_parse_frames() ->
+ *   h2_recv_data() runs after each chunk, as after each network read.  consumer 1 = streamed request:
+ *   chunks also end at every frame end and r->reqbody_queue is emptied after each (bytes_out advances).
+ *   result: h2data state=<open|hcr|closed> len=<reqbody_length> rst=<RST_STREAM sent> goaway=<0|1>
+ *           st=<http status> rb=<h2_recv_reqbody(): ready|more|wait|error|-> rq=<unconsumed bytes>
+ *           out=<hex of everything that went through r->reqbody_queue>
  * op "parse <parseopts> <flags> <head>" prints only the parsed request.
  *
  * ops gfcgi / gscgi / guwsgi / gproxy: same line layout, but the real gw_handle_subrequest()
@@ -123,7 +126,7 @@ static void on_alarm(int sig) {
 }
 
 enum { F_AUTH = 1, F_BREAKPHP = 2, F_FIXROOT = 4, F_CHECKLOCAL = 8, F_HTTPS = 16, F_ERRSAVED = 32,
-       F_H2 = 64, F_H2EXT = 128, F_UPGRADE = 256, F_TEMPFILES = 512, F_STREAM = 1024, F_HTTP10 = 2048 };
+       F_H2 = 64, F_H2EXT = 128, F_UPGRADE = 256, F_TEMPFILES = 512, F_STREAM = 1024, F_HTTP10 = 2048, F_STREAM2 = 4096 };
 
 static server srv;
 static connection con;
@@ -353,6 +356,8 @@ static void apply_request_flags(int flags, char **t) {
     if (flags & F_H2EXT) { r->http_version = HTTP_VERSION_2; r->h2_connect_ext = 1; }
     if (flags & F_ERRSAVED) r->error_handler_saved_status = 404;
     if (flags & F_STREAM) r->conf.stream_request_body = FDEVENT_STREAM_REQUEST;
+    /* server.stream-request-body = 2 sets both bits (configfile.c) */
+    if (flags & F_STREAM2) r->conf.stream_request_body = FDEVENT_STREAM_REQUEST | FDEVENT_STREAM_REQUEST_BUFMIN;
 
     buffer *basedir = hexbuf(t[0]);
     buffer_copy_buffer(&r->physical.basedir, basedir);
@@ -530,7 +535,7 @@ int main(void) {
             fputc('\n', stdout);
             continue;
         }
-        if (0 == strcmp(op, "h2data") && ltv_ntok == 5) {
+        if (0 == strcmp(op, "h2data") && ltv_ntok == 7) {
             /* a connection with one open stream (id 1), as h2_recv_headers() leaves it */
             static h2con *h2c; static request_st *sr; static chunkqueue *h2wq;
             if (!h2c) {
@@ -549,43 +554,63 @@ int main(void) {
             chunkqueue_reset(&sr->reqbody_queue);
             sr->reqbody_queue.bytes_in = sr->reqbody_queue.bytes_out = 0;
             sr->read_queue.bytes_in = sr->read_queue.bytes_out = 0;
-            sr->con = &con; sr->conf = r->conf; sr->conf.stream_request_body = 0; sr->conf.max_request_size = 0;
+            sr->con = &con; sr->conf = r->conf; sr->conf.max_request_size = (unsigned int)atoi(ltv_tok[2]);
+            const int cons = atoi(ltv_tok[3]);
+            sr->conf.stream_request_body = cons ? FDEVENT_STREAM_REQUEST : 0;
+            sr->handler_module = NULL; sr->rqst_htags = 0;
             sr->tmp_buf = r->tmp_buf;
             sr->http_status = 0; sr->state = CON_STATE_READ_POST; sr->http_version = HTTP_VERSION_2;
             sr->x.h2.id = 1; sr->x.h2.state = H2_STATE_OPEN; sr->x.h2.rwin = 65536; sr->x.h2.swin = 65535;
             sr->x.h2.rwin_fudge = 0;
             r->x.h2.id = 0; r->x.h2.rwin = 262144; r->x.h2.rwin_fudge = 0;
             sr->reqbody_length = (off_t)atoll(ltv_tok[1]);
-            make_body(ltv_tok[2]);
-            /* build the frame byte stream */
+            make_body(ltv_tok[4]);
+            /* build the frame byte stream; fend[] = offsets at which a frame is complete */
             buffer *fs = buffer_init();
+            static size_t fend[4096]; int nf = 0;
             char *save = NULL;
-            for (char *f = strtok_r(ltv_tok[3], ",", &save); f; f = strtok_r(NULL, ",", &save)) {
-                long dl = 0; int pad = -1, end = 0;
-                sscanf(f, "%ld.%d.%d", &dl, &pad, &end);
+            for (char *f = strtok_r(ltv_tok[5], ",", &save); f; f = strtok_r(NULL, ",", &save)) {
+                long dl = 0; int pad = -1, end = 0; char x = 0;
+                sscanf(f, "%ld.%d.%d.%c", &dl, &pad, &end, &x);
                 if ((size_t)dl > body_len - body_pos) dl = (long)(body_len - body_pos);
-                const uint32_t flen = (uint32_t)dl + (pad >= 0 ? 1u + (uint32_t)pad : 0u);
+                const int npad = (pad >= 0 && x != 'x') ? pad : 0;   /* 'x': Pad Length announced, padding absent */
+                const uint32_t flen = (uint32_t)dl + (pad >= 0 ? 1u + (uint32_t)npad : 0u);
                 unsigned char hd[10] = { (unsigned char)(flen >> 16), (unsigned char)(flen >> 8), (unsigned char)flen,
                                          H2_FTYPE_DATA, (unsigned char)((pad >= 0 ? H2_FLAG_PADDED : 0) | (end ? H2_FLAG_END_STREAM : 0)),
                                          0, 0, 0, 1, (unsigned char)pad };
                 buffer_append_string_len(fs, (char *)hd, pad >= 0 ? 10 : 9);
                 buffer_append_string_len(fs, (char *)body + body_pos, (size_t)dl);
                 body_pos += (size_t)dl;
-                for (int i = 0; i < pad; ++i) buffer_append_char(fs, (char)0xAA);
+                for (int i = 0; i < npad; ++i) buffer_append_char(fs, (char)0xAA);
+                if (nf < 4096) fend[nf++] = buffer_clen(fs);
             }
-            /* feed it in read chunks */
+            /* feed it in read chunks; with a consumer, additionally stop at every frame end and let the
+             * consumer (the backend side of a streamed request) take what is in r->reqbody_queue */
             long seg[64]; int nseg = 0;
-            for (char *g = strtok_r(ltv_tok[4], ",", &save); g && nseg < 64; g = strtok_r(NULL, ",", &save)) seg[nseg++] = atol(g);
+            for (char *g = strtok_r(ltv_tok[6], ",", &save); g && nseg < 64; g = strtok_r(NULL, ",", &save)) seg[nseg++] = atol(g);
             size_t pos = 0; const size_t total = buffer_clen(fs);
+            buffer_clear(capture);
+            int fi = 0;
             for (int i = 0; pos < total; ++i) {
                 size_t n = (nseg && seg[i % nseg] > 0) ? (size_t)seg[i % nseg] : total;
                 if (n > total - pos) n = total - pos;
+                if (cons) {
+                    while (fi < nf && fend[fi] <= pos) ++fi;
+                    if (fi < nf && pos + n > fend[fi]) n = fend[fi] - pos;
+                }
                 buffer *b = chunkqueue_append_buffer_open_sz(con.read_queue, n);
                 buffer_copy_string_len(b, fs->ptr + pos, n);
                 chunkqueue_append_buffer_commit(con.read_queue);
                 pos += n;
                 if (!h2_parse_frames(&con) && h2c->sent_goaway) break;
                 chunkqueue_remove_finished_chunks(con.read_queue);
+                if (cons) {
+                    off_t bl = chunkqueue_length(&sr->reqbody_queue);
+                    if (bl > 0) {
+                        char *pc = buffer_extend(capture, (size_t)bl);
+                        if (chunkqueue_read_data(&sr->reqbody_queue, pc, (uint32_t)bl, errh) < 0) fputs("READ-ERROR ", stdout);
+                    }
+                }
             }
             /* RST_STREAM frames lighttpd queued for the client */
             int nrst = 0;
@@ -601,7 +626,6 @@ int main(void) {
                 }
                 buffer_free(w);
             }
-            buffer_clear(capture);
             {
                 off_t bl = chunkqueue_length(&sr->reqbody_queue);
                 while (bl > 0) {
@@ -611,10 +635,18 @@ int main(void) {
                     bl -= k;
                 }
             }
-            printf("h2data state=%s len=%lld rst=%d goaway=%d rq=%lld out=",
+            /* what the backend side is told next: h2_recv_reqbody() (con->reqbody_read) */
+            const char *rb = "-";
+            if (!h2c->sent_goaway) {
+                const handler_t hrc = h2_recv_reqbody(sr);
+                rb = (sr->reqbody_queue.bytes_in == (off_t)sr->reqbody_length && hrc == HANDLER_GO_ON) ? "ready"
+                   : hrc == HANDLER_GO_ON ? "more" : hrc == HANDLER_WAIT_FOR_EVENT ? "wait" : hrc == HANDLER_ERROR ? "error" : "other";
+            }
+            printf("h2data state=%s len=%lld rst=%d goaway=%d st=%d rb=%s rq=%lld out=",
                    sr->x.h2.state == H2_STATE_OPEN ? "open" : sr->x.h2.state == H2_STATE_HALF_CLOSED_REMOTE ? "hcr"
                    : sr->x.h2.state == H2_STATE_CLOSED ? "closed" : "other", (long long)sr->reqbody_length,
-                   nrst, (int)h2c->sent_goaway, (long long)chunkqueue_length(con.read_queue));
+                   nrst, h2c->sent_goaway ? 1 : 0, sr->http_status, rb,
+                   h2c->sent_goaway ? 0LL : (long long)chunkqueue_length(con.read_queue));
             ltv_puthex(capture->ptr, buffer_clen(capture));
             fputc('\n', stdout);
             buffer_free(fs);
